@@ -241,7 +241,7 @@ func closeNow(c *Conn) {
 
 // Stop shuts the server down cleanly and waits for Serve to return.
 func (s *Srv) Stop() error {
-	if s.stopped {
+	if s == nil || s.stopped {
 		return nil
 	}
 	s.stopped = true
@@ -249,6 +249,16 @@ func (s *Srv) Stop() error {
 	select {
 	case err := <-s.done:
 		SetHook(s.Port, nil)
+		if s.S != nil {
+			s.S.VerifCloseFiles() // Serve leaves its log and hook queue open
+		}
+		// nothing may keep the stopped server (dataset, buffers, interpreters) alive: drivers run 10^5 lifetimes per process
+		hookMu.Lock()
+		if srvByPrt[s.Port] == s.S {
+			delete(srvByPrt, s.Port)
+		}
+		hookMu.Unlock()
+		s.S = nil
 		return err
 	case <-time.After(30 * time.Second):
 		return fmt.Errorf("server on %s did not stop", s.Addr)
@@ -257,6 +267,9 @@ func (s *Srv) Stop() error {
 
 // StopAndRemove stops the server and deletes its data directory.
 func (s *Srv) StopAndRemove() {
+	if s == nil {
+		return
+	}
 	s.Stop()
 	os.RemoveAll(s.Dir)
 }
